@@ -313,6 +313,95 @@ func runC17(c *Ctx) {
 	} else {
 		c.Unresolved("C17.P2", "docutil.GetTransformationInfoForUnpublished")
 	}
+	// id composition for long-form resolution: id = ns:suffix:initial-state, equivalent id = ns:suffix
+	if f := c.Fn("docutil", "GetTransformationInfoForUnpublished"); f != nil && rr != nil {
+		okCall := false
+		for _, cl := range callsTo(rr, f) {
+			a := cl.Call.Args
+			if len(a) == 5 && c.Path(a[0], nil) == nsField && c.Path(a[1], nil) == `""` && c.Path(a[2], nil) == `""` && c.Path(a[3], nil) == "$1" && c.Path(a[4], nil) == `$2[(strings.LastIndex($2,":") + 1):]` {
+				okCall = true
+			}
+		}
+		c.Check("C17.P2", "resolve:transformation-info-arguments", okCall, rr.Pos(), "transformation info is built from (namespace, suffix, the initial-state segment of the requested DID)")
+		env := Env{f.Params[1]: `""`, f.Params[2]: `""`}
+		pr := c.pruned(f, env)
+		live := reach(f.Blocks[0], pr)
+		sprintf := func(v ssa.Value) (string, []string) {
+			cl, ok := v.(*ssa.Call)
+			if !ok || cl.Call.StaticCallee() == nil || cl.Call.StaticCallee().String() != "fmt.Sprintf" {
+				return "", nil
+			}
+			return c.Path(cl.Call.Args[0], env), c.varargPaths(cl.Call.Args[1], env)
+		}
+		var shortID ssa.Value
+		okID, okEq := false, false
+		forEachInstr(f, func(in ssa.Instruction) {
+			if _, isLive := live[in.Block()]; !isLive {
+				return
+			}
+			if cl, ok := in.(*ssa.Call); ok {
+				if fm, args := sprintf(cl); fm == `"%s:%s"` && eqStrs(args, []string{"$0", "$3"}) {
+					shortID = cl
+				}
+			}
+		})
+		forEachInstr(f, func(in ssa.Instruction) {
+			if _, isLive := live[in.Block()]; !isLive || shortID == nil {
+				return
+			}
+			mu, ok := in.(*ssa.MapUpdate)
+			if !ok {
+				return
+			}
+			switch c.Path(mu.Key, nil) {
+			case `"id"`:
+				// value: phi(long form | short id) where long form = Sprintf("%s:%s", shortID, $4) on the $4 != "" edge
+				var v ssa.Value = mu.Value
+				if mi, isMI := v.(*ssa.MakeInterface); isMI {
+					v = mi.X
+				}
+				if phi, isPhi := v.(*ssa.Phi); isPhi {
+					for i, e := range phi.Edges {
+						if _, l := live[phi.Block().Preds[i]]; !l {
+							continue
+						}
+						if fm, args := sprintf(e); fm == `"%s:%s"` && len(args) == 2 && args[1] == "$4" && strings.Contains(args[0], `fmt.Sprintf("%s:%s"`) {
+							// guarded by $4 != ""
+							pb := phi.Block().Preds[i]
+							for _, ce := range c.condsOf(pb) {
+								if ce == `($4 != "")=true` {
+									okID = true
+								}
+							}
+						}
+					}
+				}
+			case `"equivalentId"`:
+				for v := range backSlice(mu.Value) {
+					ap, isC := v.(*ssa.Call)
+					if !isC {
+						continue
+					}
+					if bi, isB := ap.Call.Value.(*ssa.Builtin); !isB || bi.Name() != "append" {
+						continue
+					}
+					if _, l := live[ap.Block()]; !l {
+						continue
+					}
+					el := c.varargPaths(ap.Call.Args[1], env)
+					if len(el) == 1 && strings.Contains(el[0], c.Path(shortID, env)) {
+						for _, ce := range c.condsOf(ap.Block()) {
+							if ce == `($4 != "")=true` {
+								okEq = true
+							}
+						}
+					}
+				}
+			}
+		})
+		c.Check("C17.P2", "unpublished:id=ns:suffix:initial-state", okID, f.Pos(), "with an initial state the document id is \"<ns>:<suffix>:<initial state>\"")
+		c.Check("C17.P2", "unpublished:equivalentId=ns:suffix", okEq && shortID != nil, f.Pos(), "the short form \"<ns>:<suffix>\" is listed as equivalent id")
+	}
 	if f := c.Fn("docutil", "GetCreateResult"); f != nil {
 		c.Analysed(f)
 		var ap *ssa.Call
@@ -334,6 +423,21 @@ func runC17(c *Ctx) {
 	} else {
 		c.Unresolved("C17.P2", "docutil.GetCreateResult")
 	}
-	c.Min("C17.P2", 4)
+	c.Min("C17.P2", 7)
 	c.Assume("default update/recovery key generation (crypto/rand) happens only when the caller supplies no key; did-go document parsing and serialisation are outside the claim")
+}
+
+// condsOf: branch conditions (path=truth) on the single-predecessor dominator chain of b.
+func (c *Ctx) condsOf(b *ssa.BasicBlock) []string {
+	var out []string
+	for x := b; x != nil; x = x.Idom() {
+		id := x.Idom()
+		if id == nil || len(x.Preds) != 1 {
+			continue
+		}
+		if iff, ok := id.Instrs[len(id.Instrs)-1].(*ssa.If); ok {
+			out = append(out, fmt.Sprintf("%s=%v", c.Path(iff.Cond, nil), id.Succs[0] == x))
+		}
+	}
+	return out
 }
